@@ -472,8 +472,10 @@ func (analyser *BurndownAnalysis) Merge(branches []core.PipelineItem) {
 
 // Hibernate compresses the bound RBTree memory with the files.
 func (analyser *BurndownAnalysis) Hibernate() error {
+	size := analyser.fileAllocator.Size()
 	analyser.fileAllocator.Hibernate()
-	if analyser.HibernationToDisk {
+	// empty allocators and those below the threshold stay in memory: nothing to write
+	if analyser.HibernationToDisk && size > 0 && analyser.fileAllocator.Size() == 0 {
 		file, err := ioutil.TempFile(analyser.HibernationDirectory, "*-hercules.bin")
 		if err != nil {
 			return err
